@@ -16,8 +16,11 @@ ASSUMPTIONS = ["fluid-range packing fractions (eta <= 0.45) on which krylov conv
 BUDGET = {'quick': 1200, 'thorough': 5400}
 T1 = G.TYPES[0]
 
-def solve1(eta, dr, L, hc, kT=1.0, pot=None, clo='py', rho=None, method='krylov', d=1.0):
-    s = pyPRISM.System([T1], kT=kT)
+def solve1(eta, dr, L, hc, kT=1.0, pot=None, clo='py', rho=None, method='krylov', d=1.0, kT_assign=False):
+    if kT_assign:
+        s = pyPRISM.System([T1]); s.kT = kT               # temperature set through the documented attribute (a sweep re-using one System)
+    else:
+        s = pyPRISM.System([T1], kT=kT)
     s.domain = pyPRISM.Domain(length=L, dr=dr)
     s.density[T1] = rho if rho is not None else eta * 6 / math.pi / d ** 3
     s.diameter[T1] = d
@@ -137,7 +140,7 @@ def suite_dilute(ctx, case):
     errs_g = []; errs_b = []; drs = []
     for N, dr in case['grids']:
         U = mk_pot(case['pot'])
-        p = solve1(None, dr, N, hc, kT=kT, pot=U, clo=clo, rho=1e-6)
+        p = solve1(None, dr, N, hc, kT=kT, pot=U, clo=clo, rho=1e-6, kT_assign=case.get('kT_assign', False))
         ctx.validation_runs += 1
         if p is None:
             ctx.dist['dilute:not-converged'] += 1; return
@@ -163,15 +166,25 @@ def suite_dilute(ctx, case):
                 ff = np.exp(-uf) - 1.0
             if hc: ff = np.where(rf > 1.0, ff, -1.0)
             ff = np.where(np.isfinite(ff), ff, -1.0)
-            ref = -2 * math.pi * float(np.sum(ff * rf * rf) * (d.r[-1] / 200000))
-            errs_b.append(abs(B2 - ref) / (2 * math.pi * float(np.sum(np.abs(ff) * rf * rf) * (d.r[-1] / 200000))))
+            # the reported value is -1/2 of the quadratic through h(k_1..k_3) at k = 0 (C05); the same extrapolation applied to the EXACT
+            # h(k) = 4 pi Int f r sin(kr)/k dr is the reference, so that only the dr-discretisation is left (the extrapolation error depends on
+            # r_max, not on dr, and would otherwise mask a first-order criterion)
+            w_ = d.r[-1] / 200000
+            hk = [4 * math.pi * float(np.sum(ff * rf * np.sin(kk * rf)) * w_) / kk for kk in d.k[:3]]
+            k3 = d.k[:3]
+            h0 = hk[0] * k3[1] * k3[2] / ((k3[0] - k3[1]) * (k3[0] - k3[2])) + hk[1] * k3[0] * k3[2] / ((k3[1] - k3[0]) * (k3[1] - k3[2])) + hk[2] * k3[0] * k3[1] / ((k3[2] - k3[0]) * (k3[2] - k3[1]))
+            ref = -0.5 * h0
+            vol = -2 * math.pi * float(np.sum(ff * rf * rf) * w_)
+            sc_b = 2 * math.pi * float(np.sum(np.abs(ff) * rf * rf) * w_)
+            ctx.pred('dilute', case, abs(ref - vol) <= 0.2 * sc_b, 'reference: the extrapolated exact h(k->0) is not the volume integral (%.4g vs %.4g)' % (ref, vol), key='C02:dilute-B2')
+            errs_b.append(abs(B2 - ref) / sc_b)
         drs.append(dr)
     case2 = dict(case, errors={'g': errs_g, 'B2': errs_b})
     for _x, _h in zip(errs_b, drs): RATIOS['B2:' + case['pot'][0]] = max(RATIOS.get('B2:' + case['pot'][0], 0.0), _x / _h)
     ctx.pred('dilute', case2, max(errs_g) <= 1e-4, '%s/%s kT=%g: dilute g(r) differs from %s by %s' % (case['pot'][0], clo, kT, 'exp(-u/kT)' if clo != 'msa' else '1-u/kT', ['%.3g' % e for e in errs_g]), key='C02:dilute-g')
     if errs_b:
-        ok = all(e <= 5.0 * h + 1e-3 for e, h in zip(errs_b, drs))
-        ctx.pred('dilute', case2, ok, '%s/%s kT=%g: second virial is not within 5*dr (relative to Int |f| r^2) of -2 pi Int (e^{-u/kT}-1) r^2 dr: errors %s for dr %s' %
+        ok = all(e <= 3.0 * h + 1e-3 for e, h in zip(errs_b, drs))
+        ctx.pred('dilute', case2, ok, '%s/%s kT=%g: second virial is not within 3*dr (relative to Int |f| r^2) of -2 pi Int (e^{-u/kT}-1) r^2 dr (k -> 0 extrapolation of the exact transform): errors %s for dr %s' %
                  (case['pot'][0], clo, kT, ['%.3g' % e for e in errs_b], ['%.3g' % h for h in drs]), key='C02:dilute-B2')
 
 def suite_oz(ctx, case):
@@ -218,7 +231,7 @@ def generate(ctx):
         hc = True if clo == 'msa' else (rng.random() < 0.5 if hard else False)
         if clo == 'msa' and not hard: continue
         kT = rng.choice([0.7, 1.0, 2.5])
-        case = {'pot': pot, 'clo': clo, 'hc': hc, 'kT': kT, 'grids': [[128, 0.1], [256, 0.05]]}
+        case = {'pot': pot, 'clo': clo, 'hc': hc, 'kT': kT, 'grids': [[128, 0.1], [256, 0.05]], 'kT_assign': rng.random() < 0.5}
         ctx.case('dilute', case, True, tags=['pot:' + pot[0], 'clo:' + clo, 'kT:%g' % kT]); suite_dilute(ctx, case)
     for _ in range(ctx.n(40, 300)):
         sd = G.gen_system(rng, maxn=1, maxL=32)
